@@ -225,9 +225,9 @@ def handleAnalysis : List String → Option String
         let c2 := cost { pth := pth', A := a', B := b', C := c' } rows'
         if c1 ≤ factor * c2 + slack then "le" else "gt"
       | _, _, _, _, _, _, _, _, _, _, _, _ => "ERR parse")
-  | ["fssreported", raw, bounds, rep] =>
-    -- fss_params[0] as reported vs the optimiser's raw value (in-place overwrite by get_fit_params);
-    -- bounds = lo,hi;lo,hi;... of the bootstrap resamples in order
+  | ["fssreported", raw, bounds, rep, starts] =>
+    -- fss_params[0] as reported vs the optimiser's raw value, and the start values p0[0] that the
+    -- bootstrap fits received; bounds = lo,hi;lo,hi;... of the bootstrap resamples in order
     some (
       let bs : Option (List (Rat × Rat)) :=
         if bounds == "-" then some [] else
@@ -238,7 +238,18 @@ def handleAnalysis : List String → Option String
             | _, _ => none
           | _ => none
       match bs with
-      | some bs => chkRat "fss_params[0]" (parseRat? rep) (reportedPth (parseRat? raw) bs)
+      | some bs =>
+        let st := bootstrapLoop (parseRat? raw) bs
+        let v1 := chkRat "fss_params[0]" (parseRat? rep) st.1
+        let given := (splitComma starts).map parseRat?
+        let v2 :=
+          if given.length ≠ st.2.length then s!"far:starts~{st.2.length}-values"
+          else
+            let bad := ((given.zip st.2).zipIdx).filterMap fun ((g, m), j) =>
+              let v := chkRat s!"p0[{j}]" g m
+              if v == "ok" then none else some v
+            if bad.isEmpty then "ok" else bad.head!
+        s!"{v1} {v2}"
       | none => "ERR parse")
   | ["fssrange", pl, pr, rows] =>
     -- truncation with the default limits keeps every row; prints kept count, min, max
